@@ -52,6 +52,11 @@ def parse_spec(text):
     return ('range', int(first), int(last))
 
 
+def _is_reversed(text):
+    m = re.match(r'^([0-9]+)-([0-9]+)$', text)
+    return bool(m) and int(m.group(2)) < int(m.group(1))
+
+
 def evaluate(header, size):
     """What RFC 7233 prescribes for ``Range: <header>`` against a representation of ``size`` bytes.
 
@@ -78,7 +83,15 @@ def evaluate(header, size):
         return {'kind': 'ignore', 'ranges': [], 'nspecs': 0, 'lenient': False}
     parsed = [parse_spec(s) for s in specs]
     if any(p is None for p in parsed):
-        return {'kind': 'ignore', 'ranges': [], 'nspecs': len(specs), 'lenient': False}
+        res = {'kind': 'ignore', 'ranges': [], 'nspecs': len(specs), 'lenient': False}
+        rest_specs = [s for s, p in zip(specs, parsed) if p is not None or not _is_reversed(s)]
+        if len(rest_specs) != len(specs) and all(parse_spec(s) is not None for s in rest_specs):
+            # invalid only because of reversed specs (numeric, last < first): a recipient that merely drops
+            # them as selecting nothing is tolerated as an alternative reading
+            res['alt'] = evaluate('bytes=' + ','.join(rest_specs), size) if rest_specs else \
+                {'kind': 'unsat', 'ranges': [], 'nspecs': 0, 'lenient': False}
+            res['alt']['nspecs'] = len(specs)
+        return res
     out = []
     for p in parsed:
         if p[0] == 'suffix':
@@ -155,6 +168,23 @@ def judge_range_response(header, content, status, headers, body, http11=True):
     Returns a list of problem strings (empty = as prescribed)."""
     size = len(content)
     ev = evaluate(header, size)
+    readings = [ev]
+    if ev.get('alt') is not None:
+        readings.append(ev['alt'])
+    if ev['lenient']:
+        readings.append({'kind': 'ignore', 'ranges': [], 'nspecs': ev['nspecs'], 'lenient': False})
+    first = None
+    for r in readings:
+        probs = _judge_reading(r, header, content, status, headers, body, http11)
+        if not probs:
+            return []
+        if first is None:
+            first = probs
+    return first
+
+
+def _judge_reading(ev, header, content, status, headers, body, http11):
+    size = len(content)
     probs = []
 
     def full_ok():
@@ -226,11 +256,9 @@ def judge_range_response(header, content, status, headers, body, http11=True):
             probs.append('empty file: expected 200 (empty) or 416, got %s with %d bytes' % (status, len(body)))
         return probs
 
-    accept_ignore = ev['kind'] == 'ignore' or ev['lenient']
-    if accept_ignore and (full_ok() or unsat_ok()):
-        return probs
     if ev['kind'] == 'ignore':
-        probs.append('malformed Range %r: expected 200 with the full file (or 416), got %s with %d bytes' % (header, status, len(body)))
+        if not (full_ok() or unsat_ok()):
+            probs.append('malformed Range %r: expected 200 with the full file (or 416), got %s with %d bytes' % (header, status, len(body)))
         return probs
     if ev['kind'] == 'unsat':
         if not unsat_ok():
@@ -327,10 +355,11 @@ def _resolve_fs(decoded, root_parts):
     return None
 
 
-def denotations(raw_path, mount, root_abs):
+def denotations(raw_path, mount, root_abs, network_path=False):
     """Every file-system object INSIDE the root that ``raw_path`` may legitimately denote, as tuples
     of segments relative to the root.
 
+    ``network_path``: the front end parses request-targets, so "//authority/path" may lose its authority.
     The path is percent-decoded exactly once; '.' and empty segments vanish; '..' removes the
     preceding segment.  Two readings of '..' at the top are accepted as legitimate (both stay inside
     the root): RFC 3986 5.2.4 (it is dropped) and the file-system one (the path climbs out of the
@@ -340,12 +369,18 @@ def denotations(raw_path, mount, root_abs):
     root_parts = tuple(p for p in root_abs.split('/') if p)
     out = set()
     variants = []
-    rest = under_mount(raw_path, mount)
-    if rest is not None:
-        variants.append(pct_decode_once(rest))
-    rest2 = under_mount(pct_decode_once(raw_path), mount)
-    if rest2 is not None:
-        variants.append(rest2)
+    raws = [raw_path]
+    if network_path and raw_path.startswith('//'):
+        # a request-target "//x/y" may also be read as a network-path reference (RFC 3986 4.2): authority
+        # "x", path "/y" - still a path below the same root
+        raws.append('/' + raw_path[2:].partition('/')[2])
+    for raw in raws:
+        rest = under_mount(raw, mount)
+        if rest is not None:
+            variants.append(pct_decode_once(rest))
+        rest2 = under_mount(pct_decode_once(raw), mount)
+        if rest2 is not None:
+            variants.append(rest2)
     for decoded in variants:
         if '\x00' in decoded:
             continue
@@ -363,6 +398,45 @@ def escapes_root(raw_path, mount, root_abs):
     if rest is None:
         rest = raw_path[len(mount):] if mount and raw_path.startswith(mount) else raw_path
     return _resolve_fs(pct_decode_once(rest), root_parts) is None
+
+
+def resolved_location(raw_path, mount, root_abs):
+    """Absolute path the once-decoded request path resolves to when joined to the root like a file system
+    would do it (lexically; the mount prefix is cut as a plain string when no segment boundary follows it)."""
+    rest = under_mount(raw_path, mount)
+    if rest is None:
+        rest = raw_path[len(mount):] if mount and raw_path.startswith(mount) else raw_path
+    stack = [p for p in root_abs.split('/') if p]
+    for seg in pct_decode_once(rest).split('/'):
+        if seg in ('', '.'):
+            continue
+        if seg == '..':
+            if stack:
+                stack.pop()
+            continue
+        stack.append(seg)
+    return '/' + '/'.join(stack)
+
+
+def climbs_out(raw_path, mount, root_abs):
+    """True when the once-decoded path, resolved segment by segment below the root, is outside the root at
+    some point (whether or not it comes back in)."""
+    rest = under_mount(raw_path, mount)
+    if rest is None:
+        rest = raw_path[len(mount):] if mount and raw_path.startswith(mount) else raw_path
+    root = [p for p in root_abs.split('/') if p]
+    stack = list(root)
+    for seg in pct_decode_once(rest).split('/'):
+        if seg in ('', '.'):
+            continue
+        if seg == '..':
+            if stack:
+                stack.pop()
+        else:
+            stack.append(seg)
+        if stack[:len(root)] != root:
+            return True
+    return False
 
 
 def selfcheck():
@@ -390,7 +464,10 @@ def selfcheck():
     assert denotations('/static../x', '/static', root) == set()
     assert denotations('/static/%2e%2e/x', '/static', root) == {('x',)}
     assert denotations('/p%2541.txt', None, root) == {('p%41.txt',)}
+    assert denotations('//..%5c/a%20b.txt', None, root, network_path=True) == {('..\\', 'a b.txt'), ('a b.txt',)}
     assert escapes_root('/../x', None, root) and escapes_root('/..%2fx', None, root) and not escapes_root('/%252e%252e/x', None, root)
+    assert resolved_location('/static../%2e%2e/x', '/static', root) == '/t/x' and resolved_location('/a/./b', None, root) == root + '/a/b'
+    assert climbs_out('/../www/f', None, root) and not escapes_root('/../www/f', None, root) and not climbs_out('/a/../f', None, root)
     parts = split_multipart(b'\r\n--B\r\nContent-type: t\r\nContent-range: bytes 0-1/4\r\n\r\nab\r\n--B--\r\n', b'B')
     assert parts == [({'content-type': 't', 'content-range': 'bytes 0-1/4'}, b'ab')], parts
     return len(table) + 30
